@@ -1,11 +1,11 @@
 """C14 — hy2py output is valid Python: necessary conditions for ast.unparse to succeed and re-parse."""
 CANON = True
-STRICT = {"H2P-SAME", "R-ID-MANGLE", "O0", "OUTERVAR-CLOSED"}
+STRICT = {"H2P-SAME", "R-ID-MANGLE", "O0", "O1", "OUTERVAR-CLOSED", "H2P-LAMBDA"}
 
 import ast
 
-from .. import compq, core, pyq
-from ..pysrc import dotted, norm, flat
+from .. import compq, core, pm, pyq
+from ..pysrc import dotted, flat, fold, module_env, norm
 from . import c05, c07, c10, c34
 
 CM = "hy/cmdline.py"
@@ -25,6 +25,12 @@ def _transfer(ctx, sub, rules, rename=None):
     for r in rules:
         if r in sub.rules:
             ctx.rules[r] = sub.rules[r]
+
+
+def _atoms(guards):
+    from .c11 import _nnf_atoms
+
+    return _nnf_atoms(guards)
 
 
 def check(ctx, src):
@@ -47,12 +53,51 @@ def check(ctx, src):
     co = src.py(CO)
     ru = co.func("rewriting_unparse")
     ctx.require(ru is not None, "rewriting_unparse not found")
-    t = flat(ru)
-    ctx.check("ast_obj = copy.deepcopy(ast_obj)" in t and t.rstrip().endswith("return true_unparse(ast_obj)"), "H2P-KEYWORDS", f"{CO}|rewriting_unparse|copy", "the wrapper must work on a deep copy and finish with the real unparse", CO, ru.lineno,
-              witness="calling hy2py mutates the AST that is then executed", detail="deepcopy; true_unparse")
-    ctx.check("if type(node) is ast.Constant: continue" in t, "H2P-KEYWORDS", f"{CO}|rewriting_unparse|constants untouched", "string constants that happen to be keywords must not be rewritten", CO, ru.lineno, witness='the literal "class" is printed as a mangled string', detail="skip Constant")
-    ctx.check("if type(v) is str and keyword.iskeyword(v) and (v not in ('True', 'False', 'None')):" in t, "H2P-KEYWORDS", f"{CO}|rewriting_unparse|which strings", "only identifier fields holding a Python keyword (other than True/False/None) may be rewritten", CO, ru.lineno, detail="keyword and not a constant name")
-    ctx.check("setattr(node, field, chr(ord(v[0]) - ord('a') + ord('𝐚')) + v[1:])" in t, "H2P-KEYWORDS", f"{CO}|rewriting_unparse|NFKC-equivalent", "the replacement must be the NFKC-equivalent spelling (first letter in MATHEMATICAL BOLD)", CO, ru.lineno, detail="𝐚-offset first letter")
+    IDENT_FIELDS = {"id", "attr", "arg", "name", "asname", "module", "rest"}  # str-valued identifier fields of the ASDL
+    sa = pyq.contains(ru, lambda n: isinstance(n, ast.Call) and dotted(n.func) == "setattr" and len(n.args) == 3)
+    ctx.need(sa is not None, "rewriting_unparse: the setattr that rewrites an identifier was not recognised")
+    atoms = _atoms(pyq.guards(sa, ru))
+    fvar = sa.args[1].id if isinstance(sa.args[1], ast.Name) else None
+    loop = next((n for n in ast.walk(ru) if isinstance(n, ast.For) and isinstance(n.target, ast.Name) and n.target.id == fvar), None)
+    walk = next((n for n in ast.walk(ru) if isinstance(n, ast.For) and isinstance(n.iter, ast.Call) and dotted(n.iter.func) == "ast.walk"), None)
+    # (1) a deep copy is walked and the same object is printed by the real unparse
+    obj = walk.iter.args[0].id if walk is not None and walk.iter.args and isinstance(walk.iter.args[0], ast.Name) else None
+    cp = pyq.contains(ru, lambda n: isinstance(n, ast.Assign) and isinstance(n.value, ast.Call) and dotted(n.value.func) == "copy.deepcopy" and isinstance(n.targets[0], ast.Name) and n.targets[0].id == obj)
+    ret = pyq.contains(ru, lambda n: isinstance(n, ast.Return) and isinstance(n.value, ast.Call) and dotted(n.value.func) == "true_unparse" and n.value.args and isinstance(n.value.args[0], ast.Name) and n.value.args[0].id == obj)
+    ctx.decide("H2P-KEYWORDS", f"{CO}|rewriting_unparse|copy", None if obj is None else (cp is not None and ret is not None), "the wrapper must work on a deep copy and finish with the real unparse of that copy", CO, ru.lineno,
+               witness="calling hy2py mutates the AST that is then executed", detail="deepcopy; true_unparse")
+    # (2) which fields are looked at
+    fields = None
+    if loop is not None:
+        if dotted(loop.iter) is not None and dotted(loop.iter).endswith("._fields"):
+            fields = "ALL"
+        else:
+            try:
+                fields = set(fold(loop.iter, module_env(co, {dotted(loop.iter) or ""})))
+            except Exception:
+                fields = None
+                for n in ast.walk(co.tree):
+                    if isinstance(n, ast.Assign) and isinstance(n.targets[0], ast.Name) and n.targets[0].id == dotted(loop.iter):
+                        try:
+                            fields = set(fold(n.value))
+                        except Exception:
+                            fields = None
+    v = None if fields is None else (fields == "ALL" or IDENT_FIELDS <= fields)
+    ctx.decide("H2P-KEYWORDS", f"{CO}|rewriting_unparse|identifier fields", v, f"the wrapper looks only at the fields {sorted(fields) if isinstance(fields, set) else fields}; the identifier fields {sorted(IDENT_FIELDS - fields) if isinstance(fields, set) else ''} are never minced",
+               CO, ru.lineno, witness="a keyword-named capture such as (match x {\"k\" v #** else} …) is printed as `**else`: SyntaxError", detail="all fields / every identifier field")
+    # (3) string constants are never rewritten
+    const_safe = any(a in ("type(node) is not ast.Constant", "not isinstance(node, ast.Constant)") for a in atoms) or (isinstance(fields, set) and not ({"value", "kind"} & fields))
+    ctx.decide("H2P-KEYWORDS", f"{CO}|rewriting_unparse|constants untouched", None if fields is None else const_safe, "string constants that happen to be keywords must not be rewritten", CO, ru.lineno,
+               witness='the literal "class" is printed as a mangled word', detail="Constant nodes are skipped")
+    # (4) only keyword strings other than True/False/None
+    vv = sa.args[2]
+    want = {"keyword.iskeyword(v)", "v not in ('False', 'None', 'True')"}
+    b = pm.Binder()
+    hits = [a for a in pyq.guard_texts(sa, ru) if any(b.eq(a.node, "type(v) is str and keyword.iskeyword(v) and (v not in ('True', 'False', 'None'))") for _ in [0])]
+    ctx.check(bool(hits), "H2P-KEYWORDS", f"{CO}|rewriting_unparse|which strings", "only identifier fields holding a Python keyword (other than True/False/None) may be rewritten", CO, ru.lineno,
+              witness="None / True are printed as mangled words", detail="str, keyword, not a constant name")
+    ctx.check(pm.find(ru, "setattr(node, field, chr(ord(v[0]) - ord('a') + ord('𝐚')) + v[1:])") is not None, "H2P-KEYWORDS", f"{CO}|rewriting_unparse|NFKC-equivalent",
+              "the replacement must be the NFKC-equivalent spelling (first letter in MATHEMATICAL BOLD)", CO, ru.lineno, detail="bold first letter")
     # --- shared rules
     sub = core.Ctx(ctx.prop, ctx.tier, ctx.seed)
     c10.check(sub, src)
